@@ -142,9 +142,13 @@ def check_c02(case):
     expect = Counter(v for _, v in sols)
     npoints = shr_box_size(pc)
     nt_any = False
-    for cfg in case["configs"]:
+    for ci, cfg in enumerate(case["configs"]):
         tags.append("cfg:" + cfg_tag(cfg))
-        out = solve.run(pc, cfg, ("iter",), order=case.get("order"))
+        pre = (case.get("reuse") or {}).get(str(ci))
+        if pre:
+            # the enumeration is the second complete search on the same solver object
+            tags.append("after:" + pre[0])
+        out = solve.run(pc, cfg, ("after", pre, ["iter"]) if pre else ("iter",), order=case.get("order"))
         if out.kind == "slow":
             tags.append("inconclusive:slow")
             continue
@@ -157,8 +161,8 @@ def check_c02(case):
             dup = sorted(v for v, c in got.items() if c > 1 and expect.get(v, 0) == 1)[:3]
             return Verdict(
                 False,
-                "enumeration differs from brute force (%d vs %d solutions): extra %s missing %s duplicated %s [%s order=%s]"
-                % (sum(got.values()), sum(expect.values()), [list(x) for x in extra], [list(x) for x in missing], [list(x) for x in dup], cfg_tag(cfg), case.get("order")),
+                "enumeration%s differs from brute force (%d vs %d solutions): extra %s missing %s duplicated %s [%s order=%s]"
+                % (" after %s on the same solver object" % pre if pre else "", sum(got.values()), sum(expect.values()), [list(x) for x in extra], [list(x) for x in missing], [list(x) for x in dup], cfg_tag(cfg), case.get("order")),
                 True,
                 tags,
             )
@@ -183,6 +187,16 @@ def c02_case(draw, tier):
     case = {"problem": pc, "configs": cfgs}
     if len(pc["props"]) > 1 and draw(st.integers(0, 1)):
         case["order"] = list(draw(st.permutations(list(range(len(pc["props"]))))))
+    # for some configurations the enumeration is not the first search of its solver object: a complete enumeration or an
+    # optimisation was run on it before ("exactly once and then stops" has to hold for every enumeration, not only the first)
+    reuse = {}
+    nv = len(pc["idx"])
+    for ci in range(len(cfgs)):
+        if draw(st.integers(0, 4 if big else 2)) == 0:
+            k = draw(st.sampled_from(["find_all", "iter", "solve_all", "min", "max"]))
+            reuse[str(ci)] = [k, draw(st.integers(0, nv - 1))] if k in ("min", "max") else [k]
+    if reuse:
+        case["reuse"] = reuse
     return case
 
 
@@ -198,6 +212,7 @@ def check_c03(case):
     vals = sorted({v[var] for _, v in sols})
     best = None if not vals else (vals[0] if direction == "min" else vals[-1])
     nt = (not sols) or len(vals) >= 2
+    hist = ""
     # how the objective is watched (class tag)
     watchers = [p["type"] for p in pc["props"] if var in p["vars"] or any(pc["idx"][u] == pc["idx"][var] for u in p["vars"])]
     tags.append("objective-in-%s-scopes" % ("no" if not watchers else "one" if len(watchers) == 1 else "several"))
@@ -217,23 +232,29 @@ def check_c03(case):
                 raise
             return Verdict(False, "distributed optimisation waits for a message no worker will send", nt, tags)
     else:
-        out = solve.run(pc, cfg, (direction, var), order=case.get("order"))
+        pre = case.get("pre")
+        if pre:
+            # the optimisation is not the first search of its solver object
+            tags.append("after:" + pre[0] + ("-same" if list(pre) == [direction, var] else ""))
+        out = solve.run(pc, cfg, ("after", pre, [direction, var]) if pre else (direction, var), order=case.get("order"))
         if out.kind == "slow":
             return Verdict(True, "", False, tags + ["inconclusive:slow"])
         if out.kind != "ok":
-            return Verdict(False, "optimisation did not complete (%s: %s)" % (out.kind, out.msg), nt, tags)
+            return Verdict(False, "optimisation%s did not complete (%s: %s)" % (" after %s on the same solver object" % pre if pre else "", out.kind, out.msg), nt, tags)
         value = out.value
+        if pre:
+            hist = " [after %s on the same solver object]" % (pre,)
     if value is None:
         if sols:
-            return Verdict(False, "%simize(%d) returned None but the problem has %d solutions (optimum %d)" % (direction, var, len(sols), best), nt, tags)
+            return Verdict(False, "%simize(%d) returned None but the problem has %d solutions (optimum %d)" % (direction, var, len(sols), best) + hist, nt, tags)
         return Verdict(True, "", nt, tags)
     if not sols:
-        return Verdict(False, "%simize(%d) returned %s but the problem has no solution" % (direction, var, list(value)), nt, tags)
+        return Verdict(False, "%simize(%d) returned %s but the problem has no solution" % (direction, var, list(value)) + hist, nt, tags)
     why = violated_constraints(pc, value)
     if why:
-        return Verdict(False, "%simize(%d) returned %s which is not a solution: %s" % (direction, var, list(value), "; ".join(why)), nt, tags)
+        return Verdict(False, "%simize(%d) returned %s which is not a solution: %s" % (direction, var, list(value), "; ".join(why)) + hist, nt, tags)
     if value[var] != best:
-        return Verdict(False, "%simize(%d) returned value %d, the optimum over all %d solutions is %d" % (direction, var, value[var], len(sols), best), nt, tags)
+        return Verdict(False, "%simize(%d) returned value %d, the optimum over all %d solutions is %d" % (direction, var, value[var], len(sols), best) + hist, nt, tags)
     return Verdict(True, "", nt, tags)
 
 
@@ -253,6 +274,10 @@ def c03_case(draw, tier):
         v = draw(st.integers(0, nv - 1))
         d = pc["shr"][pc["idx"][v]]
         case["mp"] = {"k": draw(st.integers(1, min(4, d[1] - d[0] + 2))), "split_var": v, "schedule": draw(st.lists(st.integers(0, 3), max_size=10))}
+    elif draw(st.integers(0, 3)) == 0:
+        # an earlier complete search on the same solver object: the same optimisation, another one, or an enumeration
+        k = draw(st.sampled_from(["same", "same", "min", "max", "find_all", "iter"]))
+        case["pre"] = [case["dir"], var] if k == "same" else [k, draw(st.integers(0, nv - 1))] if k in ("min", "max") else [k]
     return case
 
 
